@@ -48,7 +48,9 @@ def shards(tier, seed):
             out.append({"R": R, "H": H, "sigma": [0, 1]})
     if tier == "thorough":
         out += [{"R": 5, "H": H, "sigma": [0, 1, 2]} for H in (3, 4)]
-    out += [{"large": [40, 36, 24], "cost": c} for c in ((1.0, 1.0, 1.0), (1.0, 0.5, 2.0))]
+    out += [{"large": [40, 36, 24], "cost": c} for c in ((1.0, 1.0, 1.0), (1.0, 0.5, 2.0), (0.7, 0.7, 0.7), (0.3, 0.3, 0.3))]
+    out += [{"large": [20, 18, 12], "cost": (1.0, 2.0, 3.0), "id_offset": S.BIG_ID},
+            {"large": [20, 18, 12], "cost": (1.0, 0.5, 2.0), "jit": True}]
     return out
 
 
@@ -145,11 +147,14 @@ def _check_batch(ctx, pairs, ref, hyp, eos, include_eos, cost, tier, tag, seed, 
             logits = torch.tensor([[[40.0 if v == (j + n) % V else 0.0 for v in range(V)] for n in range(N)]
                                    for j in range(H)])
         _check_loss(ctx, pairs, effs, ref, hyp, logits, eos, include_eos, cost, tier, tag, seed, sigma, variant)
+        # the same logits attached to the autograd graph (the training path) must give the same values
+        _check_loss(ctx, pairs, effs, ref, hyp, logits.clone().requires_grad_(True), eos, include_eos, cost, "quick",
+                    tag, seed, sigma, variant + "+grad")
 
 
 def _check_loss(ctx, pairs, effs, ref, hyp, logits, eos, include_eos, cost, tier, tag, seed, sigma, variant):
     N, H, V = len(pairs), hyp.size(0), 3
-    lsm = torch.log_softmax(logits.double(), -1).tolist()
+    lsm = torch.log_softmax(logits.detach().double(), -1).tolist()
     weights = [None, [0.5, 2.0, 1.0], [0.0, 1.0, 1.0]] if tier == "thorough" else [None, [0.0, 2.0, 1.0]]
     for batch_first, reduction, weight in itertools.product((False, True), ("none", "sum", "mean"), weights):
         if eos is not None and include_eos is False and False:
@@ -215,23 +220,33 @@ def _check_loss(ctx, pairs, effs, ref, hyp, logits, eos, include_eos, cost, tier
                                   {"admissible": readings, "observed": out.item()})
 
 
-def _large(ctx, R, H, N, cost, seed):
+def _large(ctx, R, H, N, cost, seed, id_offset=0, jit=False):
     """Larger instance (long references with many repeats), offset non-contiguous views, one module object reused."""
-    eos = 3
-    refs, hyps, ref, hyp = S.large_batch(R, H, N, seed, eos)
-    ci, cd, cs = (int(round(c * 2)) for c in cost)
+    eos = 3 + id_offset
+    refs, hyps, ref, hyp = S.large_batch(R, H, N, seed, 3, id_offset)
+    ci, cd, cs = (1, 1, 1) if cost[0] == cost[1] == cost[2] else (int(round(c * 2)) for c in cost)
     for include_eos, exclude_last, batch_first in itertools.product((False, True), (False, True), (False, True)):
         r_in, h_in = (ref.t(), hyp.t()) if batch_first else (ref, hyp)
         r0, h0 = r_in.clone(), h_in.clone()
         kw = dict(eos=eos, include_eos=include_eos, batch_first=batch_first, ins_cost=cost[0], del_cost=cost[1],
                   sub_cost=cost[2], exclude_last=exclude_last)
-        case = {"kind": "large", "R": R, "H": H, "N": N, "cost": cost, "seed": seed, **kw}
+        case = {"kind": "large", "R": R, "H": H, "N": N, "cost": cost, "seed": seed, "id_offset": id_offset,
+                "jit": jit, **kw}
         ctx.case(N, N)
         try:
             mod = M.OptimalCompletion(warn=False, **kw)
             mod(h_in, r_in)  # unrelated call first on the same object
             out = mod(r_in, h_in)
             out2 = F.optimal_completion(r_in.clone(), h_in.clone(), warn=False, **kw)
+            if jit:
+                ex = (torch.full((1, 1), eos, dtype=torch.long),) * 2
+                for nm, v in S.jit_variants(lambda: M.OptimalCompletion(warn=False, **kw), ex):
+                    if isinstance(v, Exception):
+                        raise v
+                    o3 = v(r_in, h_in)
+                    if o3.shape != out.shape or not torch.equal(o3, out):
+                        ctx.violation({"api": "OptimalCompletion/" + nm, "symptom": "differs-from-eager", "large": True},
+                                      case, {"shapes": [list(out.shape), list(o3.shape)]})
         except Exception as e:
             ctx.violation({"api": "optimal_completion", "symptom": "raises", "type": type(e).__name__, "large": True},
                           case, {"error": str(e)[-300:]})
@@ -254,7 +269,8 @@ def _large(ctx, R, H, N, cost, seed):
             bad = None
             for j in range(len(o[n])):
                 got = [v for v in o[n][j] if v != pad]
-                want = O.ocd_targets_int(er, cols[j], ci, cd, cs, (0, 1, 2, eos)) if j < nvalid else []
+                want = O.ocd_targets_int(er, cols[j], ci, cd, cs,
+                                         (id_offset, 1 + id_offset, 2 + id_offset, eos)) if j < nvalid else []
                 if sorted(got) != want or o[n][j][len(got):] != [pad] * (len(o[n][j]) - len(got)):
                     bad = (j, want, o[n][j])
                     break
@@ -274,7 +290,8 @@ def run_shard(spec, tier, seed):
         for gs in S.GLOBAL_STATES:  # the same instance under every global torch state: results must not change
             sub = Ctx()
             with S.global_state(gs):
-                _large(sub, *spec["large"], tuple(spec["cost"]), seed)
+                _large(sub, *spec["large"], tuple(spec["cost"]), seed, spec.get("id_offset", 0),
+                       spec.get("jit", False) and gs == "default")
             for v in sub.violations:
                 v["sig"]["global_state"] = gs
             sub.viol_count = type(sub.viol_count)({k.replace("}", ', "global_state": "%s"}' % gs, 1) if k.endswith("}") else k: n
@@ -291,7 +308,7 @@ def run_shard(spec, tier, seed):
     ci = 0
     eos_tok = max(sigma)
     cfgs = [(None, False), (eos_tok, False), (eos_tok, True)]
-    costs = S.costs(tier)[:3] if long_ref else S.costs(tier)
+    costs = (S.costs(tier)[:3] + [(0.7, 0.7, 0.7)]) if long_ref else S.costs(tier)
     for eos, include_eos in cfgs:
         for cost in costs:
             ci += 1
@@ -308,7 +325,8 @@ def run_shard(spec, tier, seed):
 def replay(case):
     ctx = Ctx()
     if case["kind"] == "large":
-        _large(ctx, case["R"], case["H"], case["N"], tuple(case["cost"]), case["seed"])
+        _large(ctx, case["R"], case["H"], case["N"], tuple(case["cost"]), case["seed"], case.get("id_offset", 0),
+               case.get("jit", False))
         return ctx
     if case["kind"] == "oc":
         ref = torch.tensor(case["ref"], dtype=torch.long).view(-1, 1)
